@@ -1,6 +1,7 @@
 (* C06: the four ISD filters keep the Br/Text leaves of a snapshot (C01's `shown_leaves`): region merging and the two style
    filters keep them exactly; paragraph merging keeps every text leaf in order and only adds line breaks (the Br it
-   puts between paragraphs). *)
+   puts between paragraphs).  The same is proved for the leaves outside ruby annotations (`base_leaves`, `base_text`: what the
+   writers carry), through one development that is generic in the set of skipped kinds (`sel_leaves skip`). *)
 From TT Require Import Model.Doc Gen.StyleTables Model.Isd Model.IsdFilters Spec.IsdSpec.
 From TT Require Import Proofs.Common.ElemInd Proofs.C01.Lwsp.
 
@@ -8,10 +9,28 @@ From TT Require Import Proofs.Common.ElemInd Proofs.C01.Lwsp.
 Definition leaf_chars (l : leaf) : text := match l with LBr => [] | LText s => s end.
 Definition leaves_text (e : elem) : text := flat_map leaf_chars (shown_leaves e).
 
-Definition container (e : elem) : bool := match e_kind (eattrs e) with KBr | KText => false | _ => true end.
+(* ruby annotations and their delimiters: the writers carry ruby BASE text (below rb / rbc), not the text below rt / rtc / rp *)
+Definition annot_kind (k : kind) : bool := match k with KRt | KRtc | KRp => true | _ => false end.
+(* the Br/Text leaves of an element, in document order, outside the subtrees of the kinds `skip` names *)
+Section SelDef.
+  Variable skip : kind -> bool.
+  Fixpoint sel_leaves (e : elem) : list leaf :=
+    match e with
+    | Elem a cs =>
+        match e_kind a with
+        | KBr | KText => leaf_of a
+        | k => if skip k then [] else (fix go (l : list elem) : list leaf := match l with [] => [] | c :: l' => sel_leaves c ++ go l' end) cs
+        end
+    end.
+  Definition sel_text (e : elem) : text := flat_map leaf_chars (sel_leaves e).
+End SelDef.
+Definition sk_none (_ : kind) : bool := false.
+(* the leaves / the text outside ruby annotations *)
+Definition base_leaves : elem -> list leaf := sel_leaves annot_kind.
+Definition base_text : elem -> text := sel_text annot_kind.
 
-Lemma shown_leaves_container e : container e = true -> shown_leaves e = flat_map shown_leaves (echildren e).
-Proof. destruct e as [a cs]. unfold container. cbn [eattrs echildren]. rewrite shown_leaves_node. destruct (e_kind a); congruence. Qed.
+(* neither a leaf nor a ruby annotation *)
+Definition container (e : elem) : bool := match e_kind (eattrs e) with KBr | KText | KRt | KRtc | KRp => false | _ => true end.
 
 Lemma flat_map_flat_map {A B C} (f : A -> list B) (g : B -> list C) l :
   flat_map g (flat_map f l) = flat_map (fun x => flat_map g (f x)) l.
@@ -22,22 +41,83 @@ Proof.
   intros y Hy. apply H. right. exact Hy.
 Qed.
 
+Lemma sel_leaves_node skip a cs :
+  sel_leaves skip (Elem a cs) = match e_kind a with KBr | KText => leaf_of a | k => if skip k then [] else flat_map (sel_leaves skip) cs end.
+Proof.
+  cbn [sel_leaves]. destruct (e_kind a); try reflexivity;
+    (destruct (skip _); [reflexivity|]; induction cs as [|c cs IH]; [reflexivity | cbn [flat_map]; rewrite <- IH; reflexivity]).
+Qed.
+Lemma sel_leaves_none : forall e, sel_leaves sk_none e = shown_leaves e.
+Proof.
+  induction e as [a cs IH] using elem_ind2. rewrite sel_leaves_node, shown_leaves_node. unfold sk_none.
+  destruct (e_kind a); try reflexivity; (apply flat_map_ext_in; intros c Hc; rewrite Forall_forall in IH; apply IH, Hc).
+Qed.
+Lemma sel_text_none e : sel_text sk_none e = leaves_text e.
+Proof. unfold sel_text, leaves_text. rewrite sel_leaves_none. reflexivity. Qed.
+Lemma sel_text_node skip a cs :
+  sel_text skip (Elem a cs) = match e_kind a with
+                              | KBr => []
+                              | KText => nonspace (e_text a)
+                              | k => if skip k then [] else flat_map (sel_text skip) cs
+                              end.
+Proof.
+  unfold sel_text at 1. rewrite sel_leaves_node. destruct (e_kind a) eqn:Ek;
+    try (destruct (skip _); [reflexivity | rewrite flat_map_flat_map; reflexivity]).
+  - unfold leaf_of. rewrite Ek. reflexivity.
+  - unfold leaf_of. rewrite Ek. destruct (nonspace (e_text a)); [reflexivity|]. cbn [flat_map leaf_chars]. apply app_nil_r.
+Qed.
+(* an element without any text has no selected text *)
+Lemma sel_text_nil skip : forall e, leaves_text e = [] -> sel_text skip e = [].
+Proof.
+  induction e as [a cs IH] using elem_ind2. rewrite <- sel_text_none, !sel_text_node. unfold sk_none.
+  assert (G : flat_map (sel_text (fun _ => false)) cs = [] -> flat_map (sel_text skip) cs = []).
+  { intros H. induction cs as [|c cs IHcs]; [reflexivity|]. inversion IH as [|? ? Hc Hcs]; subst. cbn [flat_map] in *.
+    apply app_eq_nil in H as [H1 H2]. rewrite (Hc ltac:(rewrite <- sel_text_none; exact H1)), (IHcs Hcs H2). reflexivity. }
+  destruct (e_kind a); try (intros H; exact H); (intros H; destruct (skip _); [reflexivity | exact (G H)]).
+Qed.
+
+Section Sel.
+  Variable skip : kind -> bool.
+  (* only ruby annotations are ever left out *)
+  Hypothesis skip_annot : forall k, skip k = true -> annot_kind k = true.
+
+  Lemma sel_leaves_container e : container e = true -> sel_leaves skip e = flat_map (sel_leaves skip) (echildren e).
+  Proof.
+    destruct e as [a cs]. unfold container. cbn [eattrs echildren]. rewrite sel_leaves_node. intros H.
+    destruct (e_kind a) eqn:Ek; try discriminate; (destruct (skip _) eqn:Es; [apply skip_annot in Es; discriminate | reflexivity]).
+  Qed.
+  Lemma sel_text_container e : container e = true -> sel_text skip e = flat_map (sel_text skip) (echildren e).
+  Proof. intros H. unfold sel_text at 1. rewrite (sel_leaves_container e H), flat_map_flat_map. reflexivity. Qed.
+
+  (* ---- RegionsMergingISDFilter ---------------------------------------------------------------------------------- *)
+  Lemma merge_regions_sel rs :
+    forallb (fun r => container r && forallb container (echildren r)) rs = true ->
+    flat_map (sel_leaves skip) (merge_regions rs) = flat_map (sel_leaves skip) rs.
+  Proof.
+    intros H. unfold merge_regions.
+    destruct ((Z.of_nat (length rs) <=? 1) || (fold_left (fun n r => n + Z.of_nat (length (echildren r))) rs 0 <=? 1)); [reflexivity|].
+    cbn [flat_map]. rewrite app_nil_r, sel_leaves_container by reflexivity. cbn [echildren flat_map]. rewrite app_nil_r.
+    rewrite sel_leaves_container by reflexivity. cbn [echildren]. rewrite flat_map_flat_map. apply flat_map_ext_in. intros r Hr.
+    rewrite forallb_forall in H. specialize (H r Hr). apply andb_true_iff in H as [H1 H2].
+    rewrite (sel_leaves_container r H1), flat_map_flat_map. apply flat_map_ext_in. intros b Hb.
+    rewrite forallb_forall in H2. symmetry. apply sel_leaves_container, H2, Hb.
+  Qed.
+End Sel.
+
 (* ---- RegionsMergingISDFilter ---------------------------------------------------------------------------------- *)
-(* regions hold bodies, and neither is a br or a text *)
+(* regions hold bodies, and neither is a br, a text or a ruby annotation *)
 Definition regions_shape (rs : list elem) : bool :=
   forallb (fun r => container r && forallb container (echildren r)) rs.
 
 Theorem merge_regions_preserves_leaves : forall rs,
   regions_shape rs = true -> flat_map shown_leaves (merge_regions rs) = flat_map shown_leaves rs.
 Proof.
-  intros rs H. unfold merge_regions.
-  destruct ((Z.of_nat (length rs) <=? 1) || (fold_left (fun n r => n + Z.of_nat (length (echildren r))) rs 0 <=? 1)); [reflexivity|].
-  cbn [flat_map]. rewrite app_nil_r, shown_leaves_node. cbn [plain_attrs e_kind flat_map]. rewrite app_nil_r, shown_leaves_node.
-  cbn [plain_attrs e_kind]. rewrite flat_map_flat_map. apply flat_map_ext_in. intros r Hr.
-  unfold regions_shape in H. rewrite forallb_forall in H. specialize (H r Hr). apply andb_true_iff in H as [H1 H2].
-  rewrite (shown_leaves_container r H1), flat_map_flat_map. apply flat_map_ext_in. intros b Hb.
-  rewrite forallb_forall in H2. symmetry. apply shown_leaves_container, H2, Hb.
+  intros rs H. pose proof (merge_regions_sel sk_none (fun k Hk => ltac:(discriminate Hk)) rs H) as G.
+  rewrite !(flat_map_ext_in _ _ _ (fun e _ => sel_leaves_none e)) in G. exact G.
 Qed.
+Theorem merge_regions_preserves_base : forall rs,
+  regions_shape rs = true -> flat_map base_leaves (merge_regions rs) = flat_map base_leaves rs.
+Proof. intros rs H. exact (merge_regions_sel annot_kind (fun k Hk => Hk) rs H). Qed.
 
 (* ---- ParagraphsMergingISDFilter --------------------------------------------------------------------------------- *)
 Lemma get_paragraphs_node a cs :
@@ -70,31 +150,6 @@ Lemma block_ok_node a cs :
                     end) cs.
 Proof. cbn [block_ok]. induction cs as [|c cs IH]; [reflexivity|]. cbn [forallb]. rewrite <- IH. reflexivity. Qed.
 
-Lemma leaves_text_container e : container e = true -> leaves_text e = flat_map leaves_text (echildren e).
-Proof. intros H. unfold leaves_text at 1. rewrite (shown_leaves_container e H), flat_map_flat_map. reflexivity. Qed.
-
-Lemma get_paragraphs_text : forall e, block_ok e = true -> flat_map leaves_text (get_paragraphs e) = flat_map leaves_text (echildren e).
-Proof.
-  induction e as [a cs IH] using elem_ind2. intros H. rewrite get_paragraphs_node. rewrite block_ok_node in H. cbn [echildren].
-  rewrite flat_map_flat_map. apply flat_map_ext_in. intros c Hc.
-  rewrite forallb_forall in H. specialize (H c Hc). rewrite Forall_forall in IH. specialize (IH c Hc).
-  destruct c as [ac ccs]. cbn [eattrs] in *. destruct (e_kind ac) eqn:Ek.
-  all: try (cbn [flat_map]; destruct (leaves_text (Elem ac ccs)); [reflexivity | discriminate]).
-  - (* div *) rewrite (IH H). symmetry. apply leaves_text_container. unfold container. cbn [eattrs]. rewrite Ek. reflexivity.
-  - (* p *) cbn [flat_map]. apply app_nil_r.
-Qed.
-
-Lemma leaves_text_br : leaves_text br_elem = [].
-Proof. reflexivity. Qed.
-Lemma join_paragraphs_text : forall ps,
-  Forall (fun p => container p = true) ps -> flat_map leaves_text (join_paragraphs ps) = flat_map leaves_text ps.
-Proof.
-  induction ps as [|p ps IH]; intros H; [reflexivity|]. inversion H as [|? ? Hp Hps]; subst.
-  cbn [join_paragraphs]. destruct ps as [|q ps'].
-  - cbn [flat_map]. rewrite app_nil_r. symmetry. apply leaves_text_container, Hp.
-  - rewrite flat_map_app. cbn [flat_map]. rewrite leaves_text_br. cbn [app]. rewrite (IH Hps).
-    rewrite <- (leaves_text_container p Hp). reflexivity.
-Qed.
 Lemma get_paragraphs_kind : forall e p, In p (get_paragraphs e) -> e_kind (eattrs p) = KP.
 Proof.
   induction e as [a cs IH] using elem_ind2. intros p Hp. rewrite get_paragraphs_node in Hp.
@@ -107,38 +162,82 @@ Qed.
 (* a body: neither it nor its children are br/text, and below each child all text sits in paragraphs reached through
    divisions (for a snapshot of a well-formed document: the children of a body are divisions holding divisions and paragraphs) *)
 Definition body_ok (b : elem) : bool := container b && forallb (fun c => container c && block_ok c) (echildren b).
-
-Lemma merge_paragraphs_body_text b : body_ok b = true -> leaves_text (merge_paragraphs_body b) = leaves_text b.
-Proof.
-  intros H. unfold merge_paragraphs_body.
-  destruct (Z.of_nat (length (flat_map get_paragraphs (echildren b))) <=? 1); [reflexivity|].
-  unfold body_ok in H. apply andb_true_iff in H as [Hb Hc]. rewrite forallb_forall in Hc.
-  rewrite (leaves_text_container b Hb).
-  rewrite leaves_text_container by (destruct b as [ab cb]; unfold container in *; cbn [eattrs] in *; exact Hb).
-  cbn [echildren flat_map]. rewrite app_nil_r.
-  rewrite leaves_text_container by reflexivity. cbn [echildren flat_map]. rewrite app_nil_r.
-  rewrite leaves_text_container by reflexivity. cbn [echildren].
-  rewrite join_paragraphs_text.
-  2:{ apply Forall_forall. intros p Hp. apply in_flat_map in Hp as (c & _ & Hp). apply get_paragraphs_kind in Hp.
-      unfold container. rewrite Hp. reflexivity. }
-  rewrite flat_map_flat_map. apply flat_map_ext_in. intros c Hin. specialize (Hc c Hin). apply andb_true_iff in Hc as [Hc1 Hc2].
-  rewrite (get_paragraphs_text c Hc2). symmetry. apply leaves_text_container, Hc1.
-Qed.
-
 Definition paragraphs_shape (rs : list elem) : bool := forallb (fun r => container r && forallb body_ok (echildren r)) rs.
 
-(* every text leaf stays, in order; only line breaks are added *)
+Section SelP.
+  Variable skip : kind -> bool.
+  Hypothesis skip_annot : forall k, skip k = true -> annot_kind k = true.
+  Let stc := sel_text_container skip skip_annot.
+
+  Lemma get_paragraphs_sel : forall e, block_ok e = true ->
+    flat_map (sel_text skip) (get_paragraphs e) = flat_map (sel_text skip) (echildren e).
+  Proof.
+    induction e as [a cs IH] using elem_ind2. intros H. rewrite get_paragraphs_node. rewrite block_ok_node in H. cbn [echildren].
+    rewrite flat_map_flat_map. apply flat_map_ext_in. intros c Hc.
+    rewrite forallb_forall in H. specialize (H c Hc). rewrite Forall_forall in IH. specialize (IH c Hc).
+    destruct c as [ac ccs]. cbn [eattrs] in *. destruct (e_kind ac) eqn:Ek.
+    all: try (cbn [flat_map]; destruct (leaves_text (Elem ac ccs)) eqn:El; [symmetry; apply sel_text_nil, El | discriminate]).
+    - (* div *) rewrite (IH H). symmetry. apply stc. unfold container. cbn [eattrs]. rewrite Ek. reflexivity.
+    - (* p *) cbn [flat_map]. apply app_nil_r.
+  Qed.
+
+  Lemma sel_text_br : sel_text skip br_elem = [].
+  Proof. reflexivity. Qed.
+  Lemma join_paragraphs_sel : forall ps,
+    Forall (fun p => container p = true) ps -> flat_map (sel_text skip) (join_paragraphs ps) = flat_map (sel_text skip) ps.
+  Proof.
+    induction ps as [|p ps IH]; intros H; [reflexivity|]. inversion H as [|? ? Hp Hps]; subst.
+    cbn [join_paragraphs]. destruct ps as [|q ps'].
+    - cbn [flat_map]. rewrite app_nil_r. symmetry. apply stc, Hp.
+    - rewrite flat_map_app. cbn [flat_map]. rewrite sel_text_br. cbn [app]. rewrite (IH Hps).
+      rewrite <- (stc p Hp). reflexivity.
+  Qed.
+
+  Lemma merge_paragraphs_body_sel b : body_ok b = true -> sel_text skip (merge_paragraphs_body b) = sel_text skip b.
+  Proof.
+    intros H. unfold merge_paragraphs_body.
+    destruct (Z.of_nat (length (flat_map get_paragraphs (echildren b))) <=? 1); [reflexivity|].
+    unfold body_ok in H. apply andb_true_iff in H as [Hb Hc]. rewrite forallb_forall in Hc.
+    rewrite (stc b Hb).
+    rewrite stc by (destruct b as [ab cb]; unfold container in *; cbn [eattrs] in *; exact Hb).
+    cbn [echildren flat_map]. rewrite app_nil_r.
+    rewrite stc by reflexivity. cbn [echildren flat_map]. rewrite app_nil_r.
+    rewrite stc by reflexivity. cbn [echildren].
+    rewrite join_paragraphs_sel.
+    2:{ apply Forall_forall. intros p Hp. apply in_flat_map in Hp as (c & _ & Hp). apply get_paragraphs_kind in Hp.
+        unfold container. rewrite Hp. reflexivity. }
+    rewrite flat_map_flat_map. apply flat_map_ext_in. intros c Hin. specialize (Hc c Hin). apply andb_true_iff in Hc as [Hc1 Hc2].
+    rewrite (get_paragraphs_sel c Hc2). symmetry. apply stc, Hc1.
+  Qed.
+
+  (* every text leaf stays, in order; only line breaks are added *)
+  Theorem merge_paragraphs_sel : forall rs,
+    paragraphs_shape rs = true -> flat_map (sel_text skip) (merge_paragraphs rs) = flat_map (sel_text skip) rs.
+  Proof.
+    intros rs H. unfold merge_paragraphs. rewrite flat_map_concat_map, map_map, <- flat_map_concat_map.
+    apply flat_map_ext_in. intros r Hr. unfold paragraphs_shape in H. rewrite forallb_forall in H. specialize (H r Hr).
+    apply andb_true_iff in H as [H1 H2]. rewrite forallb_forall in H2.
+    rewrite (stc r H1).
+    rewrite stc by (destruct r as [ar cr]; unfold container in *; cbn [eattrs] in *; exact H1).
+    cbn [echildren]. rewrite flat_map_concat_map, map_map, <- flat_map_concat_map.
+    apply flat_map_ext_in. intros b Hb. apply merge_paragraphs_body_sel, H2, Hb.
+  Qed.
+End SelP.
+
+Lemma leaves_text_container e : container e = true -> leaves_text e = flat_map leaves_text (echildren e).
+Proof.
+  intros H. rewrite <- sel_text_none, (sel_text_container sk_none (fun k Hk => ltac:(discriminate Hk)) e H).
+  apply flat_map_ext_in. intros c _. apply sel_text_none.
+Qed.
 Theorem merge_paragraphs_preserves_leaves : forall rs,
   paragraphs_shape rs = true -> flat_map leaves_text (merge_paragraphs rs) = flat_map leaves_text rs.
 Proof.
-  intros rs H. unfold merge_paragraphs. rewrite flat_map_concat_map, map_map, <- flat_map_concat_map.
-  apply flat_map_ext_in. intros r Hr. unfold paragraphs_shape in H. rewrite forallb_forall in H. specialize (H r Hr).
-  apply andb_true_iff in H as [H1 H2]. rewrite forallb_forall in H2.
-  rewrite (leaves_text_container r H1).
-  rewrite leaves_text_container by (destruct r as [ar cr]; unfold container in *; cbn [eattrs] in *; exact H1).
-  cbn [echildren]. rewrite flat_map_concat_map, map_map, <- flat_map_concat_map.
-  apply flat_map_ext_in. intros b Hb. apply merge_paragraphs_body_text, H2, Hb.
+  intros rs H. pose proof (merge_paragraphs_sel sk_none (fun k Hk => ltac:(discriminate Hk)) rs H) as G.
+  rewrite !(flat_map_ext_in _ _ _ (fun e _ => sel_text_none e)) in G. exact G.
 Qed.
+Theorem merge_paragraphs_preserves_base : forall rs,
+  paragraphs_shape rs = true -> flat_map base_text (merge_paragraphs rs) = flat_map base_text rs.
+Proof. intros rs H. exact (merge_paragraphs_sel annot_kind (fun k Hk => Hk) rs H). Qed.
 
 (* ---- the style filters change styles only ------------------------------------------------------------------------ *)
 Lemma filter_supported_node cfg a cs :
@@ -165,6 +264,21 @@ Proof.
   induction e as [a cs IH] using elem_ind2. intros par. rewrite filter_defaults_node. cbv zeta. rewrite !shown_leaves_node.
   cbn [with_styles e_kind]. rewrite leaf_of_with_styles. destruct (e_kind a); try reflexivity;
     (rewrite flat_map_concat_map, map_map, <- flat_map_concat_map; apply flat_map_ext_in; intros c Hc;
+     rewrite Forall_forall in IH; apply IH, Hc).
+Qed.
+
+Lemma filter_supported_sel skip cfg : forall e, sel_leaves skip (filter_supported cfg e) = sel_leaves skip e.
+Proof.
+  induction e as [a cs IH] using elem_ind2. rewrite filter_supported_node, !sel_leaves_node. cbn [with_styles e_kind].
+  rewrite leaf_of_with_styles. destruct (e_kind a); try reflexivity;
+    (destruct (skip _); [reflexivity|]; rewrite flat_map_concat_map, map_map, <- flat_map_concat_map; apply flat_map_ext_in; intros c Hc;
+     rewrite Forall_forall in IH; apply IH, Hc).
+Qed.
+Lemma filter_defaults_sel skip dfl : forall e par, sel_leaves skip (filter_defaults dfl par e) = sel_leaves skip e.
+Proof.
+  induction e as [a cs IH] using elem_ind2. intros par. rewrite filter_defaults_node. cbv zeta. rewrite !sel_leaves_node.
+  cbn [with_styles e_kind]. rewrite leaf_of_with_styles. destruct (e_kind a); try reflexivity;
+    (destruct (skip _); [reflexivity|]; rewrite flat_map_concat_map, map_map, <- flat_map_concat_map; apply flat_map_ext_in; intros c Hc;
      rewrite Forall_forall in IH; apply IH, Hc).
 Qed.
 
